@@ -93,9 +93,10 @@ def gen_link(rng, blocks):
             continue
         params = [] if sec == 'exclusions' else [FUNC[sec]] + [f'{rng.uniform(0.1, 9):.3f}' for _ in range(rng.randint(1, 2))]
         meta = {}
-        if rng.random() < 0.25:
+        # a trailing {...} after an interaction without parameters would be read as attributes of its last atom
+        if rng.random() < 0.25 and params:
             meta['version'] = rng.choice([1, 2])
-        if rng.random() < 0.15:
+        if rng.random() < 0.15 and params:
             meta[rng.choice(['ifdef', 'ifndef'])] = 'FLEXIBLE'
         link['inters'].setdefault(sec, []).append({'atoms': atoms, 'params': params, 'meta': meta})
     if rng.random() < 0.25 and link['inters']:
